@@ -281,6 +281,26 @@ func runC03(c *core.Ctx) {
 			c03Deviate(c, &k, f, -1)
 		}
 		c03Run(c, o, k)
+		// the conditions of the property speak about the set of audience restrictions: listing them in another order
+		// cannot change the outcome (whatever an implementation decides about lists that mix right and wrong audiences)
+		if first := c03Last; first >= 0 && len(k.auds) >= 2 && k.validator == 0 {
+			kinds := map[string]bool{}
+			for _, a := range k.auds {
+				kinds[a.kind] = true
+			}
+			if len(kinds) > 1 {
+				k2 := k
+				k2.auds = nil
+				for i := len(k.auds) - 1; i >= 0; i-- {
+					k2.auds = append(k2.auds, k.auds[i])
+				}
+				c03Run(c, o, k2)
+				if c03Last >= 0 && c03Last != first {
+					c.Violation("C03/audience-order-dependent", fmt.Sprintf("the same audience restrictions in reverse order change the outcome (accepted %v -> %v) (%s)", first == 1, c03Last == 1, k), map[string]any{"case": k.String(), "reversed": k2.String()})
+				}
+				c.Count("audience_order_pairs_compared")
+			}
+		}
 	}
 }
 
@@ -310,7 +330,11 @@ func setOrRemoveText(parent *etree.Element, path string, f fieldVal) {
 	}
 }
 
+// c03Last is the outcome of the most recent c03Run that reached a verdict point: 1 accepted, 0 refused, -1 not delivered.
+var c03Last = -1
+
 func c03Run(c *core.Ctx, o *so.Oracle, k c03Case) {
+	c03Last = -1
 	o.Reset()
 	c.Journal("C03 " + k.String())
 	// one SP object per process, reconfigured in place for every case: what it did for earlier cases must not matter
@@ -540,6 +564,10 @@ func c03Run(c *core.Ctx, o *so.Oracle, k c03Case) {
 		c.Count("no_verdict_mixed")
 	}
 	c.Observe("deviation_classes", strings.Join(wrong, "+"))
+	c03Last = 0
+	if perr == nil {
+		c03Last = 1
+	}
 	c.SampleSome(map[string]any{"case": k.String(), "accepted": perr == nil, "private_err": priv})
 }
 
